@@ -74,6 +74,10 @@ def itNew (env : Env) (start stop : Instant) : M ItState :=
     let s := if start ≥ stop then [] else s
     .ok ⟨d, s.dropWhile (fun tr => !(tr.s ≤ tm && tm < tr.e))⟩
 
+/-- `max(max_interval_size, 0).checked_add(1 day).unwrap_or(TimeDelta::MAX)` -/
+def boundLimit (b : Int) : Int :=
+  if max b 0 + nsPerDay > deltaMax then deltaMax else max b 0 + nsPerDay
+
 /-- limit day used by the termination measure of the iterator -/
 def limitDay (endDay : Day) : Day := max (endDay + 1) dateEnd
 
@@ -88,9 +92,7 @@ def consume (env : Env) (endDay startDate : Day) (kind : Kind) (st : ItState) : 
       let boundHit : M Bool :=
         match env.bound with
         | none => .ok false
-        | some b =>
-          if b + nsPerDay > deltaMax ∨ b + nsPerDay < -deltaMax then .error "opening_hours.rs:consume TimeDelta + TimeDelta overflowed"
-          else .ok ((st.date - startDate) * nsPerDay > b + nsPerDay)
+        | some b => .ok ((st.date - startDate) * nsPerDay > boundLimit b)
       match boundHit with
       | .error p => .error p
       | .ok true => .ok st
@@ -195,7 +197,8 @@ def firstInterval (ctx : Ctx) (e : Expr) (frm to : Instant) : M (Option Interval
 
 /-- `OpeningHours::state` -/
 def state (ctx : Ctx) (e : Expr) (t : Instant) : M Kind :=
-  if t + nsPerMin > instMax then .error "opening_hours.rs:state NaiveDateTime + TimeDelta overflowed"
+  -- `if naive(current_time) >= DATE_END { return Closed }`; below that `t + 1 minute` cannot overflow
+  if t ≥ instEnd then .ok .closed
   else match firstInterval ctx e t (t + nsPerMin) with
     | .error p => .error p
     | .ok none => .ok .closed
